@@ -25,6 +25,7 @@ fn guarded<F: FnOnce() -> (bool, String) + panic::UnwindSafe>(f: F) -> (bool, bo
 
 mod u2f;
 mod hid;
+mod status;
 
 fn main() {
     let args: Vec<String> = std::env::args().collect();
@@ -34,6 +35,8 @@ fn main() {
         "u2f-request" => guarded(move || u2f::request_no_panic(&hex(&arg))),
         "u2f-auth-param" => guarded(move || u2f::auth_param(&hex(&arg))),
         "u2f-wf" => guarded(move || u2f::wellformed_parses(&hex(&arg))),
+        "status-byte" => guarded(move || status::status_byte(&hex(&arg))),
+        "flags-byte" => guarded(move || status::flags_byte(&hex(&arg))),
         "hid-packets" => guarded(move || hid::packets_no_panic(&arg)),
         "hid-roundtrip" => guarded(move || hid::roundtrip(&arg)),
         _ => (false, false, format!("unknown entry {entry}")),
